@@ -355,6 +355,26 @@ Section Exec.
 
   Definition mlift {A} (r : res A) : M A := lift F r.
 
+  (* for ; cond ; post { body } with at most n evaluations of the condition *)
+  Fixpoint for_loop (n : nat) (cond : lenv -> M value) (body post : lenv -> M outcome) (l : lenv) {struct n} : M outcome :=
+    match n with
+    | O => fun _ => OutOfFuel
+    | S n' =>
+        bind F (cond l) (fun c =>
+          match c with
+          | VBool false => ret F (ONormal F l)
+          | VBool true =>
+              bind F (body l) (fun ob =>
+                match ob with
+                | ONormal _ l2 =>
+                    bind F (post l2) (fun op' =>
+                      match op' with ONormal _ l3 => for_loop n' cond body post l3 | OReturn _ _ => stuck F end)
+                | OReturn _ _ => ret F ob
+                end)
+          | _ => stuck F
+          end)
+    end.
+
   Fixpoint exec2 (s : stmt) (fuel : nat) (ce : cenv) (le : lenv) {struct s} : M outcome :=
     match s with
     | SSkip => ret F (ONormal F le)
@@ -455,25 +475,7 @@ Section Exec.
           match o with
           | OReturn _ _ => stuck F
           | ONormal _ le1 =>
-            bind F
-              ((fix loop (n : nat) (l : lenv) {struct n} : M outcome :=
-                  match n with
-                  | O => fun _ => OutOfFuel
-                  | S n' =>
-                      bind F (eval ce l cond) (fun c =>
-                        match c with
-                        | VBool false => ret F (ONormal F l)
-                        | VBool true =>
-                            bind F (exec2 body fuel ce l) (fun ob =>
-                              match ob with
-                              | ONormal _ l2 =>
-                                  bind F (exec2 post fuel ce l2) (fun op' =>
-                                    match op' with ONormal _ l3 => loop n' l3 | OReturn _ _ => stuck F end)
-                              | OReturn _ _ => ret F ob
-                              end)
-                        | _ => stuck F
-                        end)
-                  end) fuel le1)
+            bind F (for_loop fuel (fun l => eval ce l cond) (fun l => exec2 body fuel ce l) (fun l => exec2 post fuel ce l) le1)
               (fun o2 => match o2 with
                          | ONormal _ l' => ret F (ONormal F (skipn (length l' - length le) l'))
                          | OReturn _ _ => ret F o2
